@@ -7,20 +7,20 @@ META = {
     'engine': 'lean-T',
     'technique': 'Lean 4 kernel proof (omega + coprimality) about the BitVec definition regenerated from rand.c; iteration by induction',
     'level_text': 'For every state s in 1..2^31-2 the translated rand31_r returns and stores 16807*s mod (2^31-1), which is again in 1..2^31-2; '
-                  'by induction every trajectory of any length stays in range and equals 16807^n*s mod p (never 0). Full period (16807 primitive root mod the '
-                  'Mersenne prime) is the optional Mathlib corollary and is NOT part of the discharged obligations unless listed in the evidence.',
-    'level_note': 'Trusted: Lean kernel (standard axioms only); tools/c2lean.py + clang 14 typed AST, validated each run against compiled C on sampled states '
+                  'by induction every trajectory of any length stays in range and equals 16807^n*s mod p (never 0). Full period: 2^31-1 is prime (Lucas-Lehmer), '
+                  '16807 has order 2^31-2 modulo it, so from every valid seed the state returns to the seed exactly at multiples of 2^31-2 (LibrfnMath/Period.lean, Mathlib).',
+    'level_note': 'Trusted: Lean kernel (standard axioms only, also for the Mathlib-based period theorems); tools/c2lean.py + clang 14 typed AST, validated each run against compiled C on sampled states '
                   'and, in the thorough tier / on any break, by the exhaustive sweep of all 2^31-2 states against 64-bit arithmetic.',
     'design_ref': '§6 C17',
 }
-REQUIRED = ['Librfn.C17.rand31_spec', 'Librfn.C17.rand31_range', 'Librfn.C17.iterate_spec']
+REQUIRED = ['Librfn.C17.rand31_spec', 'Librfn.C17.rand31_range', 'Librfn.C17.iterate_spec', 'Librfn.C17.order_16807', 'Librfn.C17.full_period', 'Librfn.C17.first_return']
 P = 2147483647
 
 
 def run(ctx):
     rng = vlib.Rng(ctx.seed)
     pc.regen_units(ctx, ['Rand'])
-    ctx.prove(['Librfn.Props.C17'], REQUIRED)
+    ctx.prove(['Librfn.Props.C17', 'LibrfnMath.Period'], REQUIRED)
     exe, fast = pc.build(ctx)
     states = {1, 2, P - 1, P - 2, 65535, 65536, 65537, 0x7fff, 0x8000, 0xffff0000 & (P - 1), 127773, 127774, 16807, 1 << 30, (1 << 30) - 1}
     n = 2000 if ctx.tier == 'quick' else 50000
